@@ -355,7 +355,7 @@ ApplyFx(W, fx) ==
                [] e.e = "wstop" ->
                     [W EXCEPT !.act[e.a].stop = TRUE]
                [] e.e = "hook" ->
-                    [W EXCEPT !.mon.hookBad = @ \/ ~((e.c = "draining" /\ W.mon.hook = 1) \/ (e.c = "stopped" /\ W.mon.hook \in {1, 2})),
+                    [W EXCEPT !.mon.hookBad = @ \/ ~((e.c = "draining" /\ W.mon.hook \in {1, 2}) \/ (e.c = "stopped" /\ W.mon.hook \in {1, 2})),
                               !.mon.hook = IF e.c = "draining" THEN 2 ELSE 3]
                [] e.e = "stopself" -> [W EXCEPT !.stopreq = TRUE]
                [] OTHER -> W
@@ -412,18 +412,26 @@ FactoryHandleSup(ord) ==
 \* post_stop: whatever is still queued is reported with Shutdown
 RECURSIVE DiscAllShutdown(_)
 DiscAllShutdown(S) == IF S.q = <<>> THEN S ELSE DiscAllShutdown(Disc([S EXCEPT !.q = Tail(@)], Head(S.q), "shutdown"))
-\* the stop the factory sent itself once drained wins over everything else: post_stop, then the end
-FactoryStop ==
+\* the stop the factory sent itself once drained wins over everything else.  post_stop: what is still
+\* queued is reported with Shutdown, the workers are told to stop; what sits in the mailbox is never seen
+FactoryStopBegin ==
   /\ FactoryUp /\ f.stopreq
   /\ LET S1 == DiscAllShutdown(f)
          incs == {f.pool[w].inc : w \in DOMAIN f.pool}
-         W == ApplyFx([act |-> act, jb |-> jb, mon |-> mon, stopreq |-> TRUE], S1.fx \o <<Fx("hook", 0, 0, "stopped")>>)
-     IN /\ f' = Clean([S1 EXCEPT !.up = "dead", !.q = <<>>])
+         W == ApplyFx([act |-> act, jb |-> jb, mon |-> mon, stopreq |-> TRUE], S1.fx)
+     IN /\ f' = Clean([S1 EXCEPT !.up = "stopping"])
         /\ act' = [i \in Incs |-> IF i \in incs THEN [W.act[i] EXCEPT !.stop = TRUE] ELSE W.act[i]]
         /\ jb' = [j \in JobIds |-> IF \E i \in 1 .. Len(fmq) : fmq[i].m = "dispatch" /\ fmq[i].a = j THEN [W.jb[j] EXCEPT !.undeliv = TRUE] ELSE W.jb[j]]
         /\ mon' = W.mon
   /\ fmq' = <<>> /\ fsq' = <<>>
   /\ UNCHANGED <<cfg, now>>
+\* ... then waits for every worker to end, runs on_factory_stopped and ends
+FactoryStopEnd ==
+  /\ f.up = "stopping"
+  /\ \A w \in DOMAIN f.pool : act[f.pool[w].inc].st = "dead"
+  /\ LET W == ApplyFx([act |-> act, jb |-> jb, mon |-> mon, stopreq |-> TRUE], <<Fx("hook", 0, 0, "stopped")>>)
+     IN f' = [f EXCEPT !.up = "dead"] /\ mon' = W.mon
+  /\ UNCHANGED <<cfg, fmq, fsq, act, jb, now>>
 
 \* a client casts Dispatch(job)
 Submit(j, key, ttl, port, prio, nd) ==
@@ -487,20 +495,21 @@ Stale == "StaleCompletion" \in mon.dev
 OneFate == \A j \in JobIds : jb[j].sub => (Fates(j) <= 1 /\ jb[j].st <= 1 /\ Places(j) + Fates(j) = 1)
 \* a returned job was reported to the discard handler, an accepted-and-returned job does not exist
 PortOk == \A j \in JobIds : ~(jb[j].acc /\ jb[j].ret) /\ (jb[j].ret => jb[j].d = 1) /\ (jb[j].h > 0 => (jb[j].port => jb[j].acc))
-\* at most one job is lost per worker death (more only after a stale completion corrupted the in-flight view)
-LostOnePerDeath == mon.lost2 => Stale
+DSR == "DrainingSlotReplaced" \in mon.dev
+\* at most one job is lost per worker death
+LostOnePerDeath0 == ~mon.lost2
 NoFactoryPanic == ~mon.panic
 \* C14
-KeyExclusive == mon.exclBad => Stale
-KeyFifo == mon.fifoBad => Stale
-OneAtATime == Stale \/ \A a \in Incs : act[a].st = "alive" => Len(act[a].mb) + (IF act[a].run # 0 THEN 1 ELSE 0) <= 1
+KeyExclusive0 == ~mon.exclBad
+KeyFifo0 == ~mon.fifoBad
+OneAtATime0 == \A a \in Incs : act[a].st = "alive" => Len(act[a].mb) + (IF act[a].run # 0 THEN 1 ELSE 0) <= 1
 HashInPool == cfg.routing = "custom" => \A k \in Keys : \A n \in 1 .. MaxW : cfg.ch[k][n] < n
 RoundRobinCovers == ~mon.rrBad
-QueuerNoIdle == mon.idleBad => (Stale \/ "DrainingSlotReplaced" \in mon.dev)
+QueuerNoIdle0 == ~mon.idleBad
 \* the factory's view of a slot matches the worker actor: one in-flight entry per job the actor
 \* holds or has reported but the factory has not yet been told about
 Reported(w, a) == Cardinality({i \in 1 .. Len(fmq) : fmq[i].m = "finished" /\ fmq[i].a = w /\ fmq[i].g = a})
-ViewExact == Stale \/ \A w \in DOMAIN f.pool : LET a == f.pool[w].inc IN
+ViewExact0 == \A w \in DOMAIN f.pool : LET a == f.pool[w].inc IN
                act[a].st = "alive" => Cardinality(f.pool[w].cur) = Len(act[a].mb) + (IF act[a].run # 0 THEN 1 ELSE 0) + Reported(w, a)
 \* C15
 QueueBound == ~mon.qbBad
@@ -508,12 +517,27 @@ HookOrder == ~mon.hookBad
 Quiet == fmq = <<>> /\ fsq = <<>> /\ ~f.stopreq /\ \A a \in Incs : act[a].st = "alive" => (act[a].run = 0 /\ act[a].mb = <<>> /\ ~MayDie(a))
 LiveIncs == {a \in Incs : act[a].st = "alive"}
 \* at quiescence the live workers are exactly slots 0..ps-1, none draining
-PoolConverges == (Quiet /\ FactoryUp /\ "DrainingSlotReplaced" \notin mon.dev /\ ~Stale) =>
+PoolConverges0 == (Quiet /\ FactoryUp) =>
                    (DOMAIN f.pool = 0 .. (f.ps - 1) /\ LiveIncs = {f.pool[w].inc : w \in DOMAIN f.pool} /\ \A w \in DOMAIN f.pool : ~f.pool[w].dr)
-\* once drained and stopped nothing is left anywhere and every accepted job has its fate
-DrainComplete == (f.up = "dead" /\ ~Stale) => \A j \in JobIds : jb[j].sub => Places(j) = 0
-\* after DrainRequests was handled no job is admitted: a job dispatched later is refused with Shutdown
+\* once drained and stopped nothing is left anywhere: every accepted job has met its fate
+DrainComplete0 == f.up = "dead" => \A j \in JobIds : jb[j].sub => Places(j) = 0
+\* a job refused because of draining never runs
 DrainRefuses == \A j \in JobIds : (jb[j].sub /\ jb[j].why = "shutdown") => (jb[j].h = 0 /\ jb[j].st = 0)
+
+\* the same, read with the recorded deviations (DESIGN §6 items 2 and 3)
+LostOnePerDeath == LostOnePerDeath0 \/ Stale
+KeyExclusive == KeyExclusive0 \/ Stale
+KeyFifo == KeyFifo0 \/ Stale
+OneAtATime == OneAtATime0 \/ Stale
+ViewExact == ViewExact0 \/ Stale
+QueuerNoIdle == QueuerNoIdle0 \/ Stale
+PoolConverges == PoolConverges0 \/ DSR \/ Stale
+DrainComplete == DrainComplete0 \/ Stale
+\* which property-level readings are broken in this state (each is excused by a deviation above)
+Broken == (IF LostOnePerDeath0 THEN {} ELSE {"C13:LostOnePerDeath"}) \cup (IF ViewExact0 THEN {} ELSE {"C13:ViewExact"})
+          \cup (IF KeyExclusive0 THEN {} ELSE {"C14:KeyExclusive"}) \cup (IF KeyFifo0 THEN {} ELSE {"C14:KeyFifo"})
+          \cup (IF OneAtATime0 THEN {} ELSE {"C14:OneAtATime"}) \cup (IF QueuerNoIdle0 THEN {} ELSE {"C14:QueuerNoIdle"})
+          \cup (IF PoolConverges0 THEN {} ELSE {"C15:PoolConverges"}) \cup (IF DrainComplete0 THEN {} ELSE {"C15:DrainComplete"})
 \* reachability assertions (each is expected to be VIOLATED by a separate TLC run: vacuity control)
 NeverStale == ~Stale
 NeverDrainingSlotReplaced == "DrainingSlotReplaced" \notin mon.dev
